@@ -378,7 +378,7 @@ class Interp(object):
         if name in self.models.BUILTINS:
             return self.models.BUILTINS[name]
         if name in self.refl['builtins']:
-            d = 'builtins.' + name
+            d = 'builtins.' + {'IOError': 'OSError', 'EnvironmentError': 'OSError'}.get(name, name)
             if self.classes.has(d):
                 return VClass(d)
             return VBuiltin(name)
